@@ -659,6 +659,7 @@ int asn1_int_from_der_ex(int tag, int *a, const uint8_t **in, size_t *inlen)
 	const uint8_t *p;
 	size_t len;
 	size_t i;
+	uint32_t val;
 
 	if (!a || !in || !(*in) || !inlen) {
 		error_print();
@@ -675,14 +676,16 @@ int asn1_int_from_der_ex(int tag, int *a, const uint8_t **in, size_t *inlen)
 		return -1;
 	}
 
-	*a = 0;
+	// accumulate as unsigned, shifting into the sign bit of an int is undefined
+	val = 0;
 	for (i = 0; i < len; i++) {
-		*a = ((*a) << 8) | p[i];
+		val = (val << 8) | p[i];
 	}
-	if (*a < 0) {
+	if (val > INT_MAX) {
 		error_print();
 		return -1;
 	}
+	*a = (int)val;
 	return 1;
 }
 
